@@ -405,7 +405,7 @@ class ConfigNode(metaclass=ConfigNodeMeta):
             return self.ayns.tag, self.ayns.get_node_info_to_save(), self.ayns.value
 
         def _require_all_new(self, path, reason, exceptions=None, include_self=True):
-            if not include_self:
+            if not include_self or self.__dict__.get('_is_hole'):
                 return
             if not self.ayns.allow_new and (exceptions is None or path not in exceptions):
                 raise ValueError(f'Node {path!r} (source file: {self._source_file!r}) requires that the destination already exists but the current config tree does not contain a node under this path ({reason})')
